@@ -228,6 +228,7 @@ def impl_canonical(c, st, t):
     d["ITEMS"] = ",".join("%s:%s" % (x.split(":")[0][1:], x.split(":")[1]) for x in (st["items"] or []))
     d["BITEMS"] = ",".join("s" if x == "<script>" else x[1:] for x in (st["bitems"] or []))
     if d["err"] == "1":
+        d["XERR"] = "".join(fmt_num(st["cv"].get("v%d" % v, [float("nan")])[0]) + "," for v in range(len(c["vars"])))
         return d
     z = c["steps"][t]["z"]
     ev, cvc = [], []
@@ -347,6 +348,12 @@ def tie_part(run, r, model, sim, cases, d):
             if not ok:
                 run.violation("smp-vs-serial:error-class", "step %d reports err=%s serially and err=%s under schedule %s" % (
                     nerr, ssteps[nerr]["err"], isteps[nerr]["err"] if len(isteps) > nerr else "<none>", c["smp"]), rep)
+            cva = [isteps[nerr]["cv"].get("v%d" % v) for v in range(len(c["vars"]))] if len(isteps) > nerr else None
+            cvb = [ssteps[nerr]["cv"].get("v%d" % v) for v in range(len(c["vars"]))]
+            if ok and cva != cvb:
+                run.violation("error-step:serial-returns-early",
+                              "step %d raises `all CVCs are disabled`; afterwards the variables hold %s under schedule %s but %s under smp serial (the serial path returns at the failing variable, the SMP path finishes the step); config:\n%s" % (
+                                  nerr, cva, c["smp"], cvb, "\n".join(tcase_config(c))), rep)
             cut = lambda L: L[:[i for i, l in enumerate(L) if l.startswith("STEP")][nerr]]
             a, b = cut(a), cut(b)
         df = first_diff(a, b)
@@ -373,7 +380,13 @@ def tie_part(run, r, model, sim, cases, d):
                 if ic.get("err") == "1" or mc.get("err") == "1":
                     if ic.get("err") != mc.get("err"):
                         run.mismatch("error-class", {"case": c, "which": which, "step": t}, ic, mc)
+                    elif ic.get("XERR") != mc.get("XERR"):
+                        # variable values right after the failing step (serial: early return; SMP: the step is finished)
+                        run.mismatch("error-step", {"case": c, "which": which, "step": t}, ic.get("XERR"), mc.get("XERR"))
                     break
+                if mc.get("SS") == "BAD":
+                    run.mismatch("small-step-model", {"case": c, "step": t}, "atomic serial execution", "interleaved read/write-phase trace differs")
+                mc = {q: x for q, x in mc.items() if q != "SS"}
                 bad = [q for q in mc if ic.get(q) != mc[q]]
                 if bad:
                     comp = "items:smp-vs-serial" if "ITEMS" in bad or "BITEMS" in bad else ("evaluated:smp-vs-serial" if "EV" in bad or "CVC" in bad else "values:smp-vs-serial")
@@ -1053,6 +1066,23 @@ def has_error_step(c):
     return any(len(f) == len(c["vars"][v]["coeff"]) and not any(f) for st in c["steps"] for v, f in st["flags"])
 
 
+def parse_fp_line(l):
+    """FP <kind> <label> [NOTREPEATABLE] W=.. R=.. WS=..  ->  (kind, reads, writes incl. those that rewrite the same value)"""
+    w = l.split()
+    kind = "bias" if w[1] == "script" else w[1]
+    body = l.split(" W=", 1)[1]
+    W = [t for t in body.split(" R=")[0].split(",") if t]
+    rest = body.split(" R=", 1)[1]
+    R = [t for t in rest.split(" WS=")[0].split(",") if t]
+    WS = [t for t in rest.split(" WS=", 1)[1].split(",") if t] if " WS=" in rest else []
+    return kind, R, W + [t for t in WS if t not in W]
+
+
+def model_vocab(fp):
+    """the part of a derived footprint inside the model's location vocabulary (the names outside start with X)"""
+    return ([t for t in fp[0] if not t.startswith("X")], [t for t in fp[1] if not t.startswith("X")])
+
+
 def derive_footprints(sim, cases, d):
     """-> list of (case, t, flags per variable, comp fps, collect fps, bias fps) derived from the binary"""
     cases = [c for c in cases if not has_error_step(c)]
@@ -1073,10 +1103,7 @@ def derive_footprints(sim, cases, d):
         fps = {"comp": [], "collect": [], "bias": []}
         for l in ls:
             if l.startswith("FP "):
-                w = l.split()
-                kind = "bias" if w[1] == "script" else w[1]
-                W = [t for t in l.split(" W=")[1].split(" R=")[0].split(",") if t]
-                R = [t for t in l.split(" R=")[1].split(",") if t]
+                kind, R, W = parse_fp_line(l)
                 fps[kind].append((R, W))
         res.append((c, len(c["steps"]) - 1, flags, fps["comp"], fps["collect"], fps["bias"]))
     return res
@@ -1105,10 +1132,7 @@ def derive_rich_footprints(sim, cases, d):
         nrep = 0
         for l in out:
             if l.startswith("FP "):
-                w = l.split()
-                kind = "bias" if w[1] == "script" else w[1]
-                W = [t for t in l.split(" W=")[1].split(" R=")[0].split(",") if t]
-                R = [t for t in l.split(" R=")[1].split(",") if t]
+                kind, R, W = parse_fp_line(l)
                 if "NOTREPEATABLE" in l:
                     nrep += 1
                 fps[kind].append((R, W))
@@ -1133,8 +1157,8 @@ def write_gen_footprints(derived, rich=()):
                        for x in c["biases"]])
         sc = coq_list(["(%d, %s)" % (v, coq_z(f)) for v, f in c["script"]])
         cfg = "(mkCfg %s %s %s %s %s)" % (vs, bs, "true" if c["use_script"] else "false", "true" if c["after"] else "false", sc)
-        rows.append("  mkProbe %s %d\n    %s\n    %s\n    %s" % (cfg, t, coq_list([coq_fp(*f) for f in comp]), coq_list([coq_fp(*f) for f in coll]),
-                                                                  coq_list([coq_fp(*f) for f in bias])))
+        rows.append("  mkProbe %s %d\n    %s\n    %s\n    %s" % (cfg, t, coq_list([coq_fp(*model_vocab(f)) for f in comp]), coq_list([coq_fp(*model_vocab(f)) for f in coll]),
+                                                                  coq_list([coq_fp(*model_vocab(f)) for f in bias])))
     L.append(";\n".join(rows))
     L.append("].")
     L += ["", "(* configurations outside the model (other component and bias kinds): derived footprints only *)",
@@ -1142,7 +1166,7 @@ def write_gen_footprints(derived, rich=()):
     rrows = []
     for c, comp, coll, bias, nrep in rich:
         rrows.append("  mkProbe (mkCfg [] [] false false []) 0\n    %s\n    %s\n    %s" % (
-            coq_list([coq_fp(*f) for f in comp]), coq_list([coq_fp(*f) for f in coll]), coq_list([coq_fp(*f) for f in bias])))
+            coq_list([coq_fp(*model_vocab(f)) for f in comp]), coq_list([coq_fp(*model_vocab(f)) for f in coll]), coq_list([coq_fp(*model_vocab(f)) for f in bias])))
     L.append(";\n".join(rrows))
     L.append("].")
     txt = "\n".join(L) + "\n"
@@ -1199,7 +1223,7 @@ def footprint_oracle(run, model, derived, rich):
             if len(got) != len(want):
                 bad = "%d items derived, %d in the model" % (len(got), len(want))
             else:
-                for i, (g, w_) in enumerate(zip(got, want)):
+                for i, (g, w_) in enumerate(zip([model_vocab(f) for f in got], want)):
                     if set(g[0]) != set(w_[0]) or set(g[1]) != set(w_[1]):
                         bad = "item %d reads %s writes %s in the implementation; the model's table has reads %s writes %s" % (
                             i, sorted(g[0]), sorted(g[1]), sorted(w_[0]), sorted(w_[1]))
@@ -1208,15 +1232,30 @@ def footprint_oracle(run, model, derived, rich):
                 run.violation("footprints:derived-differs-from-model:" + kind.lower(),
                               "footprints derived from the binary (item run alone / one location perturbed at a time) differ from the model's footprint table, %s loop: %s; config:\n%s" % (
                                   kind.lower(), bad, "\n".join(tcase_config(c))), {"kind": "footprint", "scenario": probe_scenario(c)})
-    for c, comp, coll, bias, nrep in rich:
+    # candidate races over the WIDENED vocabulary (model locations + cached group centres / rotations, further members of the
+    # variables, module statics, proxy force array): a location touched by two items of one loop, at least one of them writing
+    # it - also when the value written is the one it already had
+    allc = [(c, comp, coll, bias, 0, probe_scenario(c), tcase_config(c)) for c, t, flags, comp, coll, bias in ok] + \
+           [(c, comp, coll, bias, nrep, rich_probe_scenario(c, "P%d" % c["id"]), rcase_config(c)) for c, comp, coll, bias, nrep in rich]
+    nloc = set()
+    for c, comp, coll, bias, nrep, scen, conf in allc:
+        for kind, l in (("comp", comp), ("bias", bias), ("collect", coll)):
+            for f in l:
+                nloc.update(t.split(":")[0] for t in f[0] + f[1])
+    run.dist("footprints: location classes reached by the probes", len(nloc))
+    run.cov["correspondence"]["footprint_location_classes"] = sorted(nloc)
+    for c, comp, coll, bias, nrep, scen, conf in allc:
         for kind, l in (("comp", comp), ("bias", bias), ("collect", coll)):
             for i in range(len(l)):
                 for j in range(i + 1, len(l)):
                     if not fp_indep(l[i], l[j]):
-                        run.violation("footprints:items-not-independent:" + kind,
-                                      "derived footprints of two items of the %s loop overlap: item %d reads %s writes %s, item %d reads %s writes %s; config:\n%s" % (
-                                          kind, i, l[i][0], l[i][1], j, l[j][0], l[j][1], "\n".join(rcase_config(c))),
-                                      {"kind": "footprint", "scenario": rich_probe_scenario(c, "P%d" % c["id"])})
+                        shared = sorted((set(l[i][1]) & set(l[j][0] + l[j][1])) | (set(l[j][1]) & set(l[i][0] + l[i][1])))
+                        outside = all(t.startswith("X") for t in shared)
+                        run.violation(("footprints:candidate-race:" if outside else "footprints:items-not-independent:") + kind + (":" + shared[0].split(":")[0] if outside else ""),
+                                      "two items of the %s loop touch the same location(s) %s (derived from the binary; at least one of them writes, possibly the value it already had): "
+                                      "item %d reads %s writes %s, item %d reads %s writes %s; config:\n%s" % (
+                                          kind, shared, i, l[i][0], l[i][1], j, l[j][0], l[j][1], "\n".join(conf)),
+                                      {"kind": "footprint", "scenario": scen})
 
 
 def probe_cases(r_cases):
@@ -1244,6 +1283,33 @@ def witness_tcases():
          "steps": [{"flags": [], "z": z0, "perm": perm, "nt": 1, "assign": []},
                    {"flags": [(0, [0, 1, 1])], "z": z1, "perm": perm, "nt": 2, "assign": []}], "smp": "perm"}
     return [c]
+
+
+def error_step_witness():
+    """SmpProofs.error_step_paths_differ: two variables, `cvcflags 0` on the first: serially the second keeps its old value"""
+    perm = list(range(NPERM))
+    return {"id": 100010, "vars": [{"tsf": 1, "coeff": [1]}, {"tsf": 1, "coeff": [1]}], "biases": [], "use_script": False, "after": False, "script": [],
+            "steps": [{"flags": [], "z": [[101], [102]], "perm": perm, "nt": 1, "assign": []},
+                      {"flags": [(0, [0])], "z": [[201], [202]], "perm": perm, "nt": 2, "assign": []}], "smp": "perm"}
+
+
+def gen_alternating(r, k):
+    """variables with different timeStepFactor (2 and 3, sometimes a third with 1): the SET of active variables changes while the
+    NUMBER of work items often stays the same (steps 2 -> 3, 8 -> 9): the item list must be rebuilt from the active set at every step"""
+    c = gen_tcase(r, k)
+    nc = r.choice([1, 1, 2])
+    vars_ = [{"tsf": 2, "coeff": [r.choice([1, 2, -1]) for _ in range(nc)]}, {"tsf": 3, "coeff": [r.choice([1, 2, -1]) for _ in range(nc)]}]
+    if r.random() < 0.4:
+        vars_.append({"tsf": 1, "coeff": [1]})
+    biases = [{"tsf": x["tsf"], "vars": [v], "k": r.randint(1, 3), "centers": [r.randint(-2, 2)]} for v, x in enumerate(vars_)]
+    steps = []
+    for t in range(r.randint(7, 10)):
+        perm = list(range(NPERM))
+        r.shuffle(perm)
+        nt = r.choice([1, 2, 3])
+        steps.append({"flags": [], "z": [[100 * (t + 1) + r.randint(-40, 40) for _ in x["coeff"]] for x in vars_], "perm": perm, "nt": nt, "assign": []})
+    c.update({"vars": vars_, "biases": biases, "use_script": False, "after": False, "script": [], "steps": steps})
+    return c
 
 
 def load_corpus():
@@ -1293,7 +1359,7 @@ def check(run):
         "an execution is modelled as an interleaving of atomic items; finer-grained interleavings of the real threads are covered by the footprint argument, not by a theorem about the C++ memory model",
     ]
     d = V.scratch("C12")
-    gen = [gen_tcase(r, k) for k in range(200 if quick else 4000)]
+    gen = [gen_alternating(r, k) if k % 8 == 3 else gen_tcase(r, k) for k in range(200 if quick else 4000)]
     rc = [gen_rcase(r, k) for k in range(50 if quick else 1200)]
     # footprints derived from the rebuilt binary -> coq/Gen/GenFootC12.v, BEFORE the proofs are checked
     derived, rich = [], []
@@ -1329,7 +1395,7 @@ def check(run):
                 break
 
     # witness of the (repaired) item-list defect and corpus first, then generated cases
-    tc = witness_tcases() + load_corpus() + gen
+    tc = witness_tcases() + [error_step_witness()] + load_corpus() + gen
     B = 200
     for b0 in range(0, len(tc), B):
         tie_part(run, r, model, sim, tc[b0:b0 + B], d)
